@@ -38,7 +38,7 @@ Proof. exact match_rejection_surfaces. Qed.
 Theorem C09_update_rejection_surfaces :
   forall lm lu c t k e names vals key err,
     use_native c = false -> get_key (t_ks t) (t_defs t) k = inr key ->
-    lu e (match lookup key (t_data t) with Some i => i | None => k end) vals names = Err err ->
+    lu e (match lookup key (t_data t) with Some i => i | None => Key.key_item (t_ks t) k end) vals names = Err err ->
     t_update lm lu c t k e None names vals = (t, WErr err).
 Proof. exact update_rejection_surfaces. Qed.
 
